@@ -111,8 +111,8 @@ def b01 (b : Bool) : String := if b then "1" else "0"
 def ordS : Ordering → String
   | .lt => "lt" | .eq => "eq" | .gt => "gt"
 
-/-- the hypotheses `FloatLaws` (Lemmas/C14Equal) and `HashLaws` (Lemmas/C14Hash), evaluated on three
-concrete numbers -/
+/-- the hypotheses `FloatLaws` (Lemmas/C14Equal), `HashLaws` (Lemmas/C14Hash) and `NumOrderLaws`
+(Lemmas/C14NumOrder), evaluated on three concrete numbers -/
 def flawsOn (a b c : Num) : Bool :=
   let x := a.toF F; let y := b.toF F; let z := c.toF F
   let nn := fun (u : UInt64) => !F.isNaN u
@@ -127,7 +127,16 @@ def flawsOn (a b c : Num) : Bool :=
   -- HashLaws (Lemmas/C14Hash)
   (!F.eq x y || F.toInt x == F.toInt y) &&
   (!F.eq x y || (F.eq z x == F.eq z y)) &&
-  (!F.eq x y || x == y || F.eq (F.ofInt (F.toInt x)) x)
+  (!F.eq x y || x == y || F.eq (F.ofInt (F.toInt x)) x) &&
+  -- NumOrderLaws (Lemmas/C14NumOrder), S n := |n| ≤ 2^53
+  (!F.lt x y || !F.lt y x) &&
+  (!(nn x && nn y && nn z) || F.lt y x || F.lt z y || !F.lt z x) &&
+  (match a, b with
+   | .i m, .i n =>
+     let small := fun (k : Int64) => decide (-9007199254740992 ≤ k.toInt ∧ k.toInt ≤ 9007199254740992)
+     (!decide (m ≤ n) || !F.lt (F.ofInt n) (F.ofInt m)) &&
+     (!(small m && small n && decide (m < n)) || F.lt (F.ofInt m) (F.ofInt n))
+   | _, _ => true)
 
 def handle (st : St) (line : String) : St × String :=
   match parseLine line with
